@@ -14,9 +14,8 @@ import (
 	"testing"
 	"time"
 
-	"github.com/anishathalye/porcupine"
-
 	"verif/sim"
+	"verif/tmodel"
 )
 
 func init() {
@@ -83,7 +82,7 @@ func runC17McrewTimers(c *sim.Ctx, t *testing.T) {
 			}
 		}
 	}
-	masks := []int{0, 0, sim.MaskEntry, sim.MaskChan, sim.MaskUnlock | sim.MaskGo, sim.MaskEntry | sim.MaskGo}
+	masks := []int{0, 0, sim.MaskEntry, sim.MaskUnlock, sim.MaskUnlock | sim.MaskGo, sim.MaskEntry | sim.MaskGo}
 	mask := masks[c.Intn(len(masks), "mask")]
 	stallW := c.Intn(3, "stallw")
 
@@ -190,7 +189,7 @@ func runC17McrewTimers(c *sim.Ctx, t *testing.T) {
 	if len(c.Sched.Stuck) > 0 && !c.Sched.Exhausted {
 		c.Violate("timer:mcrew:stuck", "requests never returned: %v", c.Sched.Stuck)
 	}
-	tmCheckHistory(c, "mcrew", evs, !c.Sched.Exhausted)
+	tmodel.CheckHistory(c, "mcrew", evs, !c.Sched.Exhausted)
 	nfire, ncancel := 0, 0
 	shape := ""
 	for _, e := range evs {
@@ -293,281 +292,6 @@ func tmPending(evs []sim.Ev, handlers map[string]tmHandler) []string {
 	return out
 }
 
-// ---- timers as a linearizable object per id (DESIGN.md Appendix B) ---------
-
-type tmIn struct {
-	kind    string // make | cancel | fire
-	payload string
-	d       time.Duration
-	invAt   time.Duration
-}
-
-type tmOut struct {
-	res    string // ok | exists | notfound
-	fireAt time.Duration
-}
-
-type tmState struct {
-	pending bool
-	payload string
-	due     time.Duration
-}
-
-var tmModel = porcupine.Model{
-	Init: func() interface{} { return tmState{} },
-	Step: func(st, in, out interface{}) (bool, interface{}) {
-		s := st.(tmState)
-		i := in.(tmIn)
-		o := out.(tmOut)
-		switch i.kind {
-		case "make":
-			switch o.res {
-			case "ok":
-				if s.pending {
-					return false, s
-				}
-				return true, tmState{true, i.payload, i.invAt + i.d}
-			case "exists":
-				return s.pending, s
-			}
-		case "cancel":
-			switch o.res {
-			case "ok":
-				if !s.pending {
-					return false, s
-				}
-				return true, tmState{}
-			case "notfound":
-				return !s.pending, s
-			}
-		case "observe":
-			return (o.res == "present") == s.pending, s
-		case "fire":
-			if !s.pending || s.payload != i.payload || o.fireAt < s.due {
-				return false, s
-			}
-			return true, tmState{}
-		}
-		return false, s
-	},
-	DescribeOperation: func(in, out interface{}) string {
-		i := in.(tmIn)
-		o := out.(tmOut)
-		switch i.kind {
-		case "make":
-			return fmt.Sprintf("make(%s,%v)@%v->%s", i.payload, i.d, i.invAt, o.res)
-		case "cancel":
-			return fmt.Sprintf("cancel->%s", o.res)
-		case "observe":
-			return fmt.Sprintf("reported-pending->%s", o.res)
-		}
-		return fmt.Sprintf("fire(%s)@%v", i.payload, o.fireAt)
-	},
-}
-
-// tmCheckHistory checks the recorded history of one timers implementation.
-// complete = the run reached its horizon (every due time has passed and all
-// requests returned), so exactly-once can be asserted.
-func tmCheckHistory(c *sim.Ctx, host string, evs []sim.Ev, complete bool) {
-	type open struct {
-		in  tmIn
-		seq int
-	}
-	byId := map[string][]porcupine.Operation{}
-	pending := map[string]*open{} // task -> open op
-	idOf := map[string]string{}   // payload -> id
-	dOf := map[string]time.Duration{}
-	invAtOf := map[string]time.Duration{}
-	accepted := map[string]bool{}
-	fires := map[string]int{}
-	type obsRec struct {
-		inv, ret int
-		task     string
-		set      string
-	}
-	var obs []obsRec
-	client := map[string]int{}
-	cid := func(task string) int {
-		if _, ok := client[task]; !ok {
-			client[task] = len(client)
-		}
-		return client[task]
-	}
-	for _, e := range evs {
-		switch e.Kind {
-		case "add.inv":
-			idOf[e.Val] = e.Id
-			dOf[e.Val] = time.Duration(e.N)
-			invAtOf[e.Val] = e.At
-			pending[e.Task+"/op"] = &open{tmIn{"make", e.Val, time.Duration(e.N), e.At}, e.Seq}
-		case "add.ret":
-			o := pending[e.Task+"/op"]
-			delete(pending, e.Task+"/op")
-			res := "ok"
-			switch {
-			case e.Err == "":
-				accepted[e.Val] = true
-			case strings.Contains(e.Err, "exists"):
-				res = "exists"
-			default:
-				c.Violate("timer:"+host+":make-error", "make(%s) returned unexpected error %q", e.Val, e.Err)
-				continue
-			}
-			byId[e.Id] = append(byId[e.Id], porcupine.Operation{ClientId: cid(e.Task), Input: o.in, Call: int64(2 * o.seq), Output: tmOut{res: res}, Return: int64(2 * e.Seq)})
-		case "rem.inv":
-			pending[e.Task+"/op"] = &open{tmIn{kind: "cancel"}, e.Seq}
-		case "rem.ret":
-			o := pending[e.Task+"/op"]
-			delete(pending, e.Task+"/op")
-			res := "ok"
-			switch {
-			case e.Err == "":
-			case strings.Contains(e.Err, "not found"), strings.Contains(e.Err, "doesn't exist"):
-				res = "notfound"
-			default:
-				c.Violate("timer:"+host+":cancel-error", "cancel(%s) returned unexpected error %q", e.Id, e.Err)
-				continue
-			}
-			byId[e.Id] = append(byId[e.Id], porcupine.Operation{ClientId: cid(e.Task), Input: o.in, Call: int64(2 * o.seq), Output: tmOut{res: res}, Return: int64(2 * e.Seq)})
-		case "obs.inv":
-			pending[e.Task+"/obs"] = &open{tmIn{kind: "observe"}, e.Seq}
-		case "obs.ret":
-			o := pending[e.Task+"/obs"]
-			delete(pending, e.Task+"/obs")
-			if e.Err != "" {
-				c.Violate("timer:"+host+":observe-error", "reading the pending timers failed: %s", e.Err)
-				continue
-			}
-			c.Count("pending_set_observations")
-			obs = append(obs, obsRec{o.seq, e.Seq, e.Task, "," + e.Val + ","})
-		case "fire":
-			id, ok := idOf[e.Val]
-			if !ok {
-				c.Violate("timer:"+host+":fire:unknown", "fired an unknown payload %q", e.Val)
-				continue
-			}
-			fires[e.Val]++
-			if fires[e.Val] > 1 {
-				c.Violate("timer:"+host+":fire:twice", "timer %s (payload %s) fired %d times", id, e.Val, fires[e.Val])
-			}
-			due := invAtOf[e.Val] + dOf[e.Val]
-			if e.At < due {
-				c.Violate("timer:"+host+":fire:early", "timer %s (payload %s) fired at %v, before its due time %v", id, e.Val, e.At, due)
-			}
-			// the firing may take effect anywhere between the moment the clock
-			// reached the due time and the entry into the handler
-			call := 2 * e.Seq
-			for _, x := range evs {
-				if x.At >= due && x.Seq <= e.Seq {
-					call = 2*x.Seq - 1
-					break
-				}
-			}
-			byId[id] = append(byId[id], porcupine.Operation{ClientId: 1000 + cid(e.Task+e.Val), Input: tmIn{kind: "fire", payload: e.Val}, Call: int64(call), Output: tmOut{fireAt: e.At}, Return: int64(2 * e.Seq)})
-		}
-	}
-	// requests in flight when the run ended cannot be judged
-	openOps := len(pending)
-	ids := make([]string, 0, len(byId))
-	for id := range byId {
-		ids = append(ids, id)
-	}
-	sort.Strings(ids)
-	// an observation of the reported pending set is a read of every id
-	for _, ob := range obs {
-		for _, id := range ids {
-			res := "absent"
-			if strings.Contains(ob.set, ","+id+",") {
-				res = "present"
-			}
-			byId[id] = append(byId[id], porcupine.Operation{ClientId: cid(ob.task), Input: tmIn{kind: "observe"}, Call: int64(2 * ob.inv), Output: tmOut{res: res}, Return: int64(2 * ob.ret)})
-		}
-		for _, id := range strings.Split(strings.Trim(ob.set, ","), ",") {
-			if id != "" && byId[id] == nil {
-				c.Violate("timer:"+host+":observe:unknown", "the pending set reports id %q that was never requested", id)
-			}
-		}
-	}
-	for _, id := range ids {
-		ops := byId[id]
-		c.Add("history_ops", len(ops))
-		if len(ops) > 14 {
-			c.Count("history_too_long")
-			continue
-		}
-		res := porcupine.CheckOperationsTimeout(tmModel, ops, 20*time.Second)
-		switch res {
-		case porcupine.Illegal:
-			var desc []string
-			kinds := map[string]bool{}
-			sort.Slice(ops, func(i, j int) bool { return ops[i].Call < ops[j].Call })
-			for _, op := range ops {
-				desc = append(desc, fmt.Sprintf("[%d,%d] %s", op.Call, op.Return, tmModel.DescribeOperation(op.Input, op.Output)))
-				i := op.Input.(tmIn)
-				o := op.Output.(tmOut)
-				kinds[i.kind+"-"+o.res] = true
-			}
-			c.Violate("timer:"+host+":not-linearizable:"+tmClassify(ops), "history of timer id %q is not linearizable as a timer (make/cancel/fire):\n  %s", id, strings.Join(desc, "\n  "))
-		case porcupine.Unknown:
-			c.Count("porcupine_unknown")
-		default:
-			c.Count("histories_linearizable")
-		}
-	}
-	if complete && openOps == 0 {
-		for p := range accepted {
-			id := idOf[p]
-			_ = id
-		}
-		// exactly once: every accepted timer fired or was cancelled
-		for _, id := range ids {
-			acc, gone := 0, 0
-			for _, op := range byId[id] {
-				i := op.Input.(tmIn)
-				o := op.Output.(tmOut)
-				switch {
-				case i.kind == "observe":
-				case i.kind == "make" && o.res == "ok":
-					acc++
-				case i.kind == "cancel" && o.res == "ok", i.kind == "fire":
-					gone++
-				}
-			}
-			if acc > gone {
-				c.Violate("timer:"+host+":lost", "timer id %q: %d accepted but only %d fired or cancelled by the time every due time had passed", id, acc, gone)
-			}
-		}
-	}
-}
-
-// tmClassify names the smallest recognisable illegal pattern, for the
-// violation signature.
-func tmClassify(ops []porcupine.Operation) string {
-	// sequential scan in order of return: report the first operation that is
-	// illegal for the state reached by the operations that returned before it
-	sorted := append([]porcupine.Operation{}, ops...)
-	sort.Slice(sorted, func(i, j int) bool { return sorted[i].Return < sorted[j].Return })
-	st := tmModel.Init()
-	for _, op := range sorted {
-		ok, ns := tmModel.Step(st, op.Input, op.Output)
-		if !ok {
-			i := op.Input.(tmIn)
-			o := op.Output.(tmOut)
-			s := st.(tmState)
-			state := "none"
-			if s.pending {
-				state = "pending"
-			}
-			res := o.res
-			if i.kind == "fire" {
-				res = "fired"
-			}
-			return i.kind + "-" + res + "-while-" + state
-		}
-		st = ns
-	}
-	return "interleaving"
-}
 
 func min1(a, b int) int {
 	if a < b {
